@@ -201,32 +201,32 @@ def State.set (st : State) (k : Key) (v : SignerState) : State := fun k' => if k
 /-! ## enums -/
 
 def validRole (r : Nat) : Bool :=
-  r = Gen.val_BNRoleAttester || r = Gen.val_BNRoleAggregator || r = Gen.val_BNRoleProposer ||
-  r = Gen.val_BNRoleSyncCommittee || r = Gen.val_BNRoleSyncCommitteeContribution ||
-  r = Gen.val_BNRoleValidatorRegistration || r = Gen.val_BNRoleVoluntaryExit
+  r == Gen.val_BNRoleAttester || r == Gen.val_BNRoleAggregator || r == Gen.val_BNRoleProposer ||
+  r == Gen.val_BNRoleSyncCommittee || r == Gen.val_BNRoleSyncCommitteeContribution ||
+  r == Gen.val_BNRoleValidatorRegistration || r == Gen.val_BNRoleVoluntaryExit
 
 def validQBFTMsgType (t : Nat) : Bool :=
-  t = Gen.val_ProposalMsgType || t = Gen.val_PrepareMsgType || t = Gen.val_CommitMsgType || t = Gen.val_RoundChangeMsgType
+  t == Gen.val_ProposalMsgType || t == Gen.val_PrepareMsgType || t == Gen.val_CommitMsgType || t == Gen.val_RoundChangeMsgType
 
 def validPartialSigMsgType (t : Nat) : Bool :=
-  t = Gen.val_PostConsensusPartialSig || t = Gen.val_RandaoPartialSig || t = Gen.val_SelectionProofPartialSig ||
-  t = Gen.val_ContributionProofs || t = Gen.val_ValidatorRegistrationPartialSig || t = Gen.val_VoluntaryExitPartialSig
+  t == Gen.val_PostConsensusPartialSig || t == Gen.val_RandaoPartialSig || t == Gen.val_SelectionProofPartialSig ||
+  t == Gen.val_ContributionProofs || t == Gen.val_ValidatorRegistrationPartialSig || t == Gen.val_VoluntaryExitPartialSig
 
 /-- `maxRound(role)`; the values 12 / 6 / 0 are literals of the function body (tied by its fingerprint and the differential run) -/
 def maxRound (role : Nat) : Except Fail Nat :=
-  if role = Gen.val_BNRoleAttester || role = Gen.val_BNRoleAggregator then .ok 12
-  else if role = Gen.val_BNRoleProposer || role = Gen.val_BNRoleSyncCommittee || role = Gen.val_BNRoleSyncCommitteeContribution then .ok 6
-  else if role = Gen.val_BNRoleValidatorRegistration || role = Gen.val_BNRoleVoluntaryExit then .ok 0
+  if role == Gen.val_BNRoleAttester || role == Gen.val_BNRoleAggregator then .ok 12
+  else if role == Gen.val_BNRoleProposer || role == Gen.val_BNRoleSyncCommittee || role == Gen.val_BNRoleSyncCommitteeContribution then .ok 6
+  else if role == Gen.val_BNRoleValidatorRegistration || role == Gen.val_BNRoleVoluntaryExit then .ok 0
   else .error (.panic .maxRoundUnknownRole)
 
 def partialTypeMatchesRole (t role : Nat) : Except Fail Bool :=
-  if role = Gen.val_BNRoleAttester then .ok (t = Gen.val_PostConsensusPartialSig)
-  else if role = Gen.val_BNRoleAggregator then .ok (t = Gen.val_PostConsensusPartialSig || t = Gen.val_SelectionProofPartialSig)
-  else if role = Gen.val_BNRoleProposer then .ok (t = Gen.val_PostConsensusPartialSig || t = Gen.val_RandaoPartialSig)
-  else if role = Gen.val_BNRoleSyncCommittee then .ok (t = Gen.val_PostConsensusPartialSig)
-  else if role = Gen.val_BNRoleSyncCommitteeContribution then .ok (t = Gen.val_PostConsensusPartialSig || t = Gen.val_ContributionProofs)
-  else if role = Gen.val_BNRoleValidatorRegistration then .ok (t = Gen.val_ValidatorRegistrationPartialSig)
-  else if role = Gen.val_BNRoleVoluntaryExit then .ok (t = Gen.val_VoluntaryExitPartialSig)
+  if role == Gen.val_BNRoleAttester then .ok (t == Gen.val_PostConsensusPartialSig)
+  else if role == Gen.val_BNRoleAggregator then .ok (t == Gen.val_PostConsensusPartialSig || t == Gen.val_SelectionProofPartialSig)
+  else if role == Gen.val_BNRoleProposer then .ok (t == Gen.val_PostConsensusPartialSig || t == Gen.val_RandaoPartialSig)
+  else if role == Gen.val_BNRoleSyncCommittee then .ok (t == Gen.val_PostConsensusPartialSig)
+  else if role == Gen.val_BNRoleSyncCommitteeContribution then .ok (t == Gen.val_PostConsensusPartialSig || t == Gen.val_ContributionProofs)
+  else if role == Gen.val_BNRoleValidatorRegistration then .ok (t == Gen.val_ValidatorRegistrationPartialSig)
+  else if role == Gen.val_BNRoleVoluntaryExit then .ok (t == Gen.val_VoluntaryExitPartialSig)
   else .error (.panic .partialTypeRoleUnknownRole)
 
 /-! ## slot and round windows -/
@@ -239,10 +239,10 @@ def earlyMessage (c : NetCfg) (slot : Nat) (now : GoTime) : Bool :=
 
 /-- ttl of `lateMessage`; `none` = the role returns 0 immediately; roles outside the switch keep ttl 0 -/
 def lateTtl (role : Nat) : Option Nat :=
-  if role = Gen.val_BNRoleProposer || role = Gen.val_BNRoleSyncCommittee || role = Gen.val_BNRoleSyncCommitteeContribution
+  if role == Gen.val_BNRoleProposer || role == Gen.val_BNRoleSyncCommittee || role == Gen.val_BNRoleSyncCommitteeContribution
     then some (1 + Gen.val_lateSlotAllowance)
-  else if role = Gen.val_BNRoleAttester || role = Gen.val_BNRoleAggregator then some (32 + Gen.val_lateSlotAllowance)
-  else if role = Gen.val_BNRoleValidatorRegistration || role = Gen.val_BNRoleVoluntaryExit then none
+  else if role == Gen.val_BNRoleAttester || role == Gen.val_BNRoleAggregator then some (32 + Gen.val_lateSlotAllowance)
+  else if role == Gen.val_BNRoleValidatorRegistration || role == Gen.val_BNRoleVoluntaryExit then none
   else some 0
 
 /-- `lateMessage(slot, role, receivedAt)` : Duration -/
@@ -272,7 +272,7 @@ def highestAllowedRound (c : NetCfg) (slot : Nat) (now : GoTime) : Int :=
   wrapU64 (est + (Gen.val_allowedRoundsInFuture : Int))
 
 def roundWindow (c : NetCfg) (m : QMsg) (now : GoTime) : Chk :=
-  rejectIf (decide ((m.round : Int) < (Gen.val_FirstRound : Int)) || decide ((m.round : Int) > highestAllowedRound c m.height now)) .EstimatedRoundTooFar
+  rejectIf (Nat.blt m.round Gen.val_FirstRound || decide ((m.round : Int) > highestAllowedRound c m.height now)) .EstimatedRoundTooFar
 
 /-! ## signers, leader -/
 
@@ -281,7 +281,7 @@ def toInt64 (x : Nat) : Int := wrapI64 x
 
 /-- the index expression of `specqbft.RoundRobinProposer` (Go `int`, truncating `%`); n = len(Committee) ≠ 0 -/
 def leaderIndex (n height round : Nat) : Int :=
-  let first := if height ≠ Gen.val_FirstHeight then goMod (toInt64 height) n else 0
+  let first := if height != Gen.val_FirstHeight then goMod (toInt64 height) n else 0
   goMod (wrapI64 (wrapI64 (first + toInt64 round) - (Gen.val_FirstRound : Int))) n
 
 /-- `RoundRobinProposer(state, round)` with its two panic sites -/
@@ -315,13 +315,13 @@ def signersShape (sh : Share) (m : QMsg) : Chk :=
   match m.signers with
   | [] => failT .NoSigners
   | [s] =>
-    if m.mtype = Gen.val_ProposalMsgType then
+    if m.mtype == Gen.val_ProposalMsgType then
       match roundRobinProposer sh.committee m.height m.round with
       | .error e => .error e
       | .ok leader => rejectIf (s ≠ leader) .SignerNotLeader
     else ok
   | _ :: _ :: _ =>
-    if m.mtype ≠ Gen.val_CommitMsgType then failT .NonDecidedWithMultipleSigners
+    if m.mtype != Gen.val_CommitMsgType then failT .NonDecidedWithMultipleSigners
     else rejectIf (!hasQuorum sh m.signers.length || decide (m.signers.length > sh.committee.length)) .WrongSignersLength
 
 def validConsensusSigners (sh : Share) (m : QMsg) : Chk :=
@@ -330,24 +330,24 @@ def validConsensusSigners (sh : Share) (m : QMsg) : Chk :=
 /-- `validateSignatureFormat`: length check, then `[signatureSize]byte(signature) == [signatureSize]byte{}`
     (the slice-to-array conversion panics for a shorter slice) -/
 def signatureFormat (sigLen : Nat) (sigZero : Bool) : Chk :=
-  firstFail [rejectIf (sigLen ≠ Gen.val_signatureSize) .WrongSignatureSize,
-             (if sigLen < Gen.val_signatureSize then failP .sigArrayConversion else rejectIf sigZero .ZeroSignature)]
+  firstFail [rejectIf (sigLen != Gen.val_signatureSize) .WrongSignatureSize,
+             (if Nat.blt sigLen Gen.val_signatureSize then failP .sigArrayConversion else rejectIf sigZero .ZeroSignature)]
 
 /-! ## duties -/
 
 def validateBeaconDuty (x : Ctx) (role slot : Nat) (sh : Share) : Chk :=
-  if role = Gen.val_BNRoleProposer then
+  if role == Gen.val_BNRoleProposer then
     firstFail [rejectIf (!sh.hasMeta) .NoShareMetadata,
       rejectIf (!x.duties.proposer.contains ((epochAtSlot x.cfg slot).toNat, slot, sh.index)) .NoDuty]
-  else if role = Gen.val_BNRoleSyncCommittee || role = Gen.val_BNRoleSyncCommitteeContribution then
+  else if role == Gen.val_BNRoleSyncCommittee || role == Gen.val_BNRoleSyncCommitteeContribution then
     firstFail [rejectIf (!sh.hasMeta) .NoShareMetadata,
       rejectIf (!x.duties.sync.contains ((periodAtEpoch x.cfg (epochAtSlot x.cfg slot)).toNat, sh.index)) .NoDutyIgnored]
   else ok
 
 /-- `validateDutyCount` -/
 def validateDutyCount (ss : SignerState) (role : Nat) (newDutyInSameEpoch : Bool) : Chk :=
-  if role = Gen.val_BNRoleAttester || role = Gen.val_BNRoleAggregator ||
-     role = Gen.val_BNRoleValidatorRegistration || role = Gen.val_BNRoleVoluntaryExit then
+  if role == Gen.val_BNRoleAttester || role == Gen.val_BNRoleAggregator ||
+     role == Gen.val_BNRoleValidatorRegistration || role == Gen.val_BNRoleVoluntaryExit then
     let limit := if newDutyInSameEpoch then Gen.val_maxDutiesPerEpoch else Gen.val_maxDutiesPerEpoch + 1
     rejectIf (decide (ss.epochDuties ≥ limit)) .TooManyDutiesPerEpoch
   else ok
@@ -359,46 +359,46 @@ def maxDecidedCount (n : Nat) : Int :=
   let f := goDiv ((n : Int) - 1) 3
   (n : Int) * (f + 1)
 
-def isDecided (m : QMsg) : Bool := m.mtype = Gen.val_CommitMsgType && decide (m.signers.length > 1)
+def isDecided (m : QMsg) : Bool := m.mtype == Gen.val_CommitMsgType && decide (m.signers.length > 1)
 
 /-- `hasFullData(signedMsg)` -/
 def hasFullData (m : QMsg) : Bool :=
-  (m.mtype = Gen.val_ProposalMsgType || m.mtype = Gen.val_RoundChangeMsgType || isDecided m) && m.fullData.isSome
+  (m.mtype == Gen.val_ProposalMsgType || m.mtype == Gen.val_RoundChangeMsgType || isDecided m) && m.fullData.isSome
 
 /-- `MessageCounts.ValidateConsensusMessage(msg, maxMessageCounts(n))` -/
 def countsValidate (c : Counts) (m : QMsg) (n : Nat) : Chk :=
-  if m.mtype = Gen.val_ProposalMsgType then rejectIf (decide (c.proposal ≥ 1)) .TooManySameTypeMessagesPerRound
-  else if m.mtype = Gen.val_PrepareMsgType then rejectIf (decide (c.prepare ≥ 1)) .TooManySameTypeMessagesPerRound
-  else if m.mtype = Gen.val_CommitMsgType then
+  if m.mtype == Gen.val_ProposalMsgType then rejectIf (decide (c.proposal ≥ 1)) .TooManySameTypeMessagesPerRound
+  else if m.mtype == Gen.val_PrepareMsgType then rejectIf (decide (c.prepare ≥ 1)) .TooManySameTypeMessagesPerRound
+  else if m.mtype == Gen.val_CommitMsgType then
     firstFail [rejectIf (decide (m.signers.length = 1) && decide (c.commit ≥ 1)) .TooManySameTypeMessagesPerRound,
                rejectIf (decide (m.signers.length > 1) && decide ((c.decided : Int) ≥ maxDecidedCount n)) .TooManySameTypeMessagesPerRound]
-  else if m.mtype = Gen.val_RoundChangeMsgType then rejectIf (decide (c.roundChange ≥ 1)) .TooManySameTypeMessagesPerRound
+  else if m.mtype == Gen.val_RoundChangeMsgType then rejectIf (decide (c.roundChange ≥ 1)) .TooManySameTypeMessagesPerRound
   else failP .countsValidateUnknownType
 
 /-- `MessageCounts.RecordConsensusMessage(msg)` -/
 def countsRecord (c : Counts) (m : QMsg) : Except Fail Counts :=
-  if m.mtype = Gen.val_ProposalMsgType then .ok { c with proposal := c.proposal + 1 }
-  else if m.mtype = Gen.val_PrepareMsgType then .ok { c with prepare := c.prepare + 1 }
-  else if m.mtype = Gen.val_CommitMsgType then
+  if m.mtype == Gen.val_ProposalMsgType then .ok { c with proposal := c.proposal + 1 }
+  else if m.mtype == Gen.val_PrepareMsgType then .ok { c with prepare := c.prepare + 1 }
+  else if m.mtype == Gen.val_CommitMsgType then
     if m.signers.length = 1 then .ok { c with commit := c.commit + 1 }
     else if m.signers.length > 1 then .ok { c with decided := c.decided + 1 }
     else .error (.panic .countsRecordNoSigners)
-  else if m.mtype = Gen.val_RoundChangeMsgType then .ok { c with roundChange := c.roundChange + 1 }
+  else if m.mtype == Gen.val_RoundChangeMsgType then .ok { c with roundChange := c.roundChange + 1 }
   else .error (.panic .countsRecordUnknownType)
 
 def isPreConsensusType (t : Nat) : Bool :=
-  t = Gen.val_RandaoPartialSig || t = Gen.val_SelectionProofPartialSig || t = Gen.val_ContributionProofs ||
-  t = Gen.val_ValidatorRegistrationPartialSig || t = Gen.val_VoluntaryExitPartialSig
+  t == Gen.val_RandaoPartialSig || t == Gen.val_SelectionProofPartialSig || t == Gen.val_ContributionProofs ||
+  t == Gen.val_ValidatorRegistrationPartialSig || t == Gen.val_VoluntaryExitPartialSig
 
 /-- `MessageCounts.ValidatePartialSignatureMessage` (note the strict `>` of the code: limit + 1 messages pass) -/
 def countsValidatePartial (c : Counts) (t : Nat) : Chk :=
   if isPreConsensusType t then rejectIf (decide (c.preConsensus > 1)) .TooManySameTypeMessagesPerRound
-  else if t = Gen.val_PostConsensusPartialSig then rejectIf (decide (c.postConsensus > 1)) .TooManySameTypeMessagesPerRound
+  else if t == Gen.val_PostConsensusPartialSig then rejectIf (decide (c.postConsensus > 1)) .TooManySameTypeMessagesPerRound
   else failP .partialCountsUnknownType
 
 def countsRecordPartial (c : Counts) (t : Nat) : Except Fail Counts :=
   if isPreConsensusType t then .ok { c with preConsensus := c.preConsensus + 1 }
-  else if t = Gen.val_PostConsensusPartialSig then .ok { c with postConsensus := c.postConsensus + 1 }
+  else if t == Gen.val_PostConsensusPartialSig then .ok { c with postConsensus := c.postConsensus + 1 }
   else .error (.panic .partialRecordUnknownType)
 
 /-! ## justifications -/
@@ -406,10 +406,10 @@ def countsRecordPartial (c : Counts) (t : Nat) : Except Fail Counts :=
 def validateJustifications (m : QMsg) : Chk :=
   firstFail [
     rejectIf m.pjMalformed .MalformedPrepareJustifications,
-    rejectIf (decide (m.pjLen ≠ 0) && decide (m.mtype ≠ Gen.val_ProposalMsgType)) .UnexpectedPrepareJustifications,
+    rejectIf (decide (m.pjLen ≠ 0) && (m.mtype != Gen.val_ProposalMsgType)) .UnexpectedPrepareJustifications,
     rejectIf m.rcjMalformed .MalformedRoundChangeJustifications,
-    rejectIf (decide (m.rcjLen ≠ 0) && decide (m.mtype ≠ Gen.val_ProposalMsgType) && decide (m.mtype ≠ Gen.val_RoundChangeMsgType)) .UnexpectedRoundChangeJustifications,
-    rejectIf (decide (m.mtype = Gen.val_ProposalMsgType) && !m.justOk) .InvalidJustifications]
+    rejectIf (decide (m.rcjLen ≠ 0) && (m.mtype != Gen.val_ProposalMsgType) && (m.mtype != Gen.val_RoundChangeMsgType)) .UnexpectedRoundChangeJustifications,
+    rejectIf (decide (m.mtype == Gen.val_ProposalMsgType) && !m.justOk) .InvalidJustifications]
 
 /-! ## per-signer behaviour (consensus) -/
 
@@ -458,10 +458,10 @@ def envSigCheck : EnvSig → Chk
 
 /-- the guards of `validateConsensusMessage`, in source order -/
 def consensusChecks (x : Ctx) (st : State) (i : Input) (sh : Share) (m : QMsg) : List Chk :=
-  [ rejectIf (i.role = Gen.val_BNRoleValidatorRegistration || i.role = Gen.val_BNRoleVoluntaryExit) .UnexpectedConsensusMessage,
+  [ rejectIf (i.role == Gen.val_BNRoleValidatorRegistration || i.role == Gen.val_BNRoleVoluntaryExit) .UnexpectedConsensusMessage,
     signatureFormat m.sigLen m.sigZero,
     rejectIf (!validQBFTMsgType m.mtype) .UnknownQBFTMessageType,
-    rejectIf (m.round = Gen.val_NoRound) .ZeroRound,
+    rejectIf (m.round == Gen.val_NoRound) .ZeroRound,
     (match maxRound i.role with
      | .error e => .error e
      | .ok mx => rejectIf (decide (m.round > mx)) .RoundTooHigh),
@@ -534,7 +534,7 @@ def isAttesting (sh : Share) (wallEpoch : Nat) : Bool :=
 /-- the guards of `validateSSVMessage` before the message is decoded -/
 def preChecks (i : Input) : List Chk :=
   [ rejectIf (i.dataLen = 0) .EmptyData,
-    rejectIf (decide (i.dataLen > Gen.val_maxMessageSize)) .SSVDataTooBig,
+    rejectIf (Nat.blt Gen.val_maxMessageSize i.dataLen) .SSVDataTooBig,
     rejectIf (!i.domainOk) .WrongDomain,
     rejectIf (!validRole i.role) .InvalidRole,
     rejectIf (!i.pkOk) .DeserializePublicKey,
@@ -554,9 +554,9 @@ def check (x : Ctx) (st : State) (i : Input) : Chk :=
     | .malformed => failT .MalformedMessage
     | .event => failT .EventMessage
     | .consensus m =>
-      firstFail (rejectIf (decide (i.dataLen > Gen.val_maxConsensusMsgSize)) .SSVDataTooBig :: consensusChecks x st i sh m)
+      firstFail (rejectIf (Nat.blt Gen.val_maxConsensusMsgSize i.dataLen) .SSVDataTooBig :: consensusChecks x st i sh m)
     | .partialSig m =>
-      firstFail (rejectIf (decide (i.dataLen > Gen.val_maxPartialSignatureMsgSize)) .SSVDataTooBig :: partialChecks x st i sh m)
+      firstFail (rejectIf (Nat.blt Gen.val_maxPartialSignatureMsgSize i.dataLen) .SSVDataTooBig :: partialChecks x st i sh m)
 
 /-- the state update performed when every guard passed -/
 def update (x : Ctx) (st : State) (i : Input) : Except Fail State :=
